@@ -24,6 +24,7 @@ Op (JSON list)     ["new", e, pk|None, [[a, arg]...]]   E<e>(id=pk, a<a>=arg ...
                    ["getby", e, a, arg]                 E.get(a=arg)
                    ["select", e, a, arg]                E.select(a=arg)[:]    (sorted by pk)
                    ["selectall", e]                     E.select()[:]
+                   ["flushobj", h]                    obj.flush(): save this object (and the created objects it refers to) now
                    ["flush"] ["commit"] ["rollback"]    module-level flush() / commit() / rollback()
                    ["newsession"]                       leave the db_session normally (commit) and enter a new one
 arg                None | int | str | {"h": handle} | {"hs": [handle...]}
@@ -191,7 +192,7 @@ class OpGen(object):
         kinds = [('new', 22), ('set', 14), ('setmany', 5), ('del', 6), ('add', 5), ('remove', 4), ('assign', 4),
                  ('read', 14), ('pk', 2), ('count', 3), ('isempty', 2), ('contains', 3),
                  ('getpk', 5), ('getby', 5), ('select', 3), ('selectall', 2),
-                 ('flush', 3), ('commit', 4), ('rollback', 1.5), ('newsession', 3.5)]
+                 ('flush', 3), ('commit', 4), ('rollback', 1.5), ('newsession', 3.5), ('flushobj', 3)]
         if not self.h: kinds = [(k, w * (4 if k in ('new', 'getpk', 'selectall', 'getby', 'select') else 1)) for k, w in kinds]
         tot = sum(w for _, w in kinds); x = r.random() * tot
         for k, w in kinds:
@@ -222,6 +223,7 @@ class OpGen(object):
         na = len(self.ents()[e]['attrs'])
         if k == 'del': return ['del', h]
         if k == 'pk': return ['pk', h]
+        if k == 'flushobj': return ['flushobj', h]
         if k == 'read':
             if na == 0: return None
             return ['read', h, r.randrange(na) if not (bad and r.random() < 0.2) else na + 1]
@@ -321,6 +323,7 @@ def coq_op(op):
         return '(%s %d %d %s)' % ({'add': 'OAdd', 'remove': 'ORemove', 'assign': 'OAssign'}[k], op[1], op[2], clist([cnat(h) for h in op[3]]))
     if k == 'read': return '(ORead %d %d)' % (op[1], op[2])
     if k == 'pk': return '(OPk %d)' % op[1]
+    if k == 'flushobj': return '(OFlushObj %d)' % op[1]
     if k == 'count': return '(OCount %d %d)' % (op[1], op[2])
     if k == 'isempty': return '(OIsEmpty %d %d)' % (op[1], op[2])
     if k == 'contains': return '(OContains %d %d %d)' % (op[1], op[2], op[3])
